@@ -221,6 +221,23 @@ package ir
 //@   call (*Canonicalizer).NormalizeOperand update res = store(res, nres, result)
 //@   call (*Canonicalizer).NormalizeOperand update nres = nres + 1
 //@   let sl = dyn(instr, "*ssa.Slice")
+//@   ghost arg map[int]ssa.Value
+//@   call (*Canonicalizer).NormalizeOperand update arg = store(arg, nres, a1)
 //@   call (*strings.Builder).String assert [C04.render] a0 == fieldaddr(c, "scratch")
-//@   call (*strings.Builder).String assert [C04.render] a0 == fieldaddr(c, "scratch") && hasType(instr, "*ssa.Slice") ==> out == "Slice " + res[0] + ite(sl.Low != nil, ", Low:" + res[1], "") + ite(sl.High != nil, ", High:" + res[ite(sl.Low != nil, 2, 1)], "") + ite(sl.Max != nil, ", Max:" + res[1 + ite(sl.Low != nil, 1, 0) + ite(sl.High != nil, 1, 0)], "")
+//@   call (*strings.Builder).String assert [C04.render] hasType(instr, "*ssa.Slice") ==> out == "Slice " + res[0] + ite(sl.Low != nil, ", Low:" + res[1], "") + ite(sl.High != nil, ", High:" + res[ite(sl.Low != nil, 2, 1)], "") + ite(sl.Max != nil, ", Max:" + res[1 + ite(sl.Low != nil, 1, 0) + ite(sl.High != nil, 1, 0)], "")
+//@   call (*strings.Builder).String assert [C04.render] hasType(instr, "*ssa.Slice") ==> arg[0] == sl.X && (sl.Low != nil ==> arg[1] == sl.Low) && (sl.High != nil ==> arg[ite(sl.Low != nil, 2, 1)] == sl.High) && (sl.Max != nil ==> arg[1 + ite(sl.Low != nil, 1, 0) + ite(sl.High != nil, 1, 0)] == sl.Max)
+// the other operand-only renderings: the text names every operand slot, and each slot holds the rendering of the
+// operand that belongs there
+//@   call (*strings.Builder).String assert [C04.render] hasType(instr, "*ssa.Store") ==> out == "Store " + res[0] + ", " + res[1] && arg[0] == dyn(instr, "*ssa.Store").Addr && arg[1] == dyn(instr, "*ssa.Store").Val
+//@   call (*strings.Builder).String assert [C04.render] hasType(instr, "*ssa.IndexAddr") ==> out == "IndexAddr " + res[0] + ", " + res[1] && arg[0] == dyn(instr, "*ssa.IndexAddr").X && arg[1] == dyn(instr, "*ssa.IndexAddr").Index
+//@   call (*strings.Builder).String assert [C04.render] hasType(instr, "*ssa.Index") ==> out == "Index " + res[0] + ", " + res[1] && arg[0] == dyn(instr, "*ssa.Index").X && arg[1] == dyn(instr, "*ssa.Index").Index
+//@   call (*strings.Builder).String assert [C04.render] hasType(instr, "*ssa.Extract") ==> out == "Extract " + res[0] + ", " + itoa(dyn(instr, "*ssa.Extract").Index) && arg[0] == dyn(instr, "*ssa.Extract").Tuple
+//@   call (*strings.Builder).String assert [C04.render] hasType(instr, "*ssa.MapUpdate") ==> out == "MapUpdate " + res[0] + ", Key:" + res[1] + ", Val:" + res[2] && arg[0] == dyn(instr, "*ssa.MapUpdate").Map && arg[1] == dyn(instr, "*ssa.MapUpdate").Key && arg[2] == dyn(instr, "*ssa.MapUpdate").Value
+//@   call (*strings.Builder).String assert [C04.render] hasType(instr, "*ssa.Lookup") ==> out == "Lookup " + res[0] + ", Key:" + res[1] + ite(dyn(instr, "*ssa.Lookup").CommaOk, ", CommaOk", "") && arg[0] == dyn(instr, "*ssa.Lookup").X && arg[1] == dyn(instr, "*ssa.Lookup").Index
+//@   call (*strings.Builder).String assert [C04.render] hasType(instr, "*ssa.FieldAddr") ==> out == "FieldAddr " + res[0] + ", field(" + itoa(dyn(instr, "*ssa.FieldAddr").Field) + ")" && arg[0] == dyn(instr, "*ssa.FieldAddr").X
+//@   call (*strings.Builder).String assert [C04.render] hasType(instr, "*ssa.Field") ==> out == "Field " + res[0] + ", field(" + itoa(dyn(instr, "*ssa.Field").Field) + ")" && arg[0] == dyn(instr, "*ssa.Field").X
+//@   call (*strings.Builder).String assert [C04.render] hasType(instr, "*ssa.Send") ==> out == "Send " + res[0] + ", " + res[1] && arg[0] == dyn(instr, "*ssa.Send").Chan && arg[1] == dyn(instr, "*ssa.Send").X
+//@   call (*strings.Builder).String assert [C04.render] hasType(instr, "*ssa.Range") ==> out == "Range " + res[0] && arg[0] == dyn(instr, "*ssa.Range").X
+//@   call (*strings.Builder).String assert [C04.render] hasType(instr, "*ssa.Next") ==> out == "Next " + res[0] && arg[0] == dyn(instr, "*ssa.Next").Iter
+//@   call (*strings.Builder).String assert [C04.render] hasType(instr, "*ssa.Panic") ==> out == "Panic " + res[0] && arg[0] == dyn(instr, "*ssa.Panic").X
 
